@@ -21,7 +21,7 @@ func init() {
 			"a macro reached through import/from-import calls sibling macros only through an import written inside its own body",
 			"the reference interpreter (internal/mt) is trusted to transcribe the statement",
 		},
-		quick: 7900 + 300, thorough: 7900 + 30000, minQuick: 2500, minThorough: 8000,
+		quick: 7900 + 12000, thorough: 7900 + 200000, minQuick: 6000, minThorough: 40000,
 	}})
 }
 
